@@ -37,6 +37,25 @@ def run(facts, rep, tier, ctx):
         pr = PathRules(facts, w, D)
         n = pr.create_dir_all(rep, "R17.1")
         rep.floor("create_dir_all obligations (%s)" % w.tag, n, 6)
+    # R17.5 what the in-memory backends answer never depends on who else holds the lock: the filesystem lock is taken by waiting for
+    # it (read / write / lock), not by a try_* acquisition whose failure is turned into an answer — an exists() that says "no"
+    # while a concurrent create_dir holds the write lock makes the checked create of the next segment fail ("parent does not exist")
+    from ..inter import Inter as _In17
+    in17 = _In17(facts)
+    ntry = nacq17 = 0
+    for b5 in facts.bodies:
+        if not b5.file.endswith(("impls/memory.rs",)):
+            continue
+        for s5 in in17.sites(b5):
+            if s5.short in ("RwLock::read", "RwLock::write", "Mutex::lock"):
+                nacq17 += 1
+            if s5.short in ("RwLock::try_read", "RwLock::try_write", "Mutex::try_lock", "RwLock::try_upgradable_read"):
+                ntry += 1
+                rep.ob("R17.5", D.owner_id(b5), "the filesystem lock is waited for, not tried", False,
+                       "%s: when another thread holds the lock this call answers from \"lock busy\" instead of from the tree (a spurious "
+                       "\"does not exist\" / refusal under concurrency)" % s5.short, s5.line)
+    rep.ob("R17.5", "impls/memory.rs", "lock acquisitions of the in-memory backends inspected", nacq17 >= 10,
+           "%d blocking acquisitions, %d try_* acquisitions" % (nacq17, ntry), "")
     ws = World(facts, False)
     # R17.3 MemoryFS
     from ..report import Report
